@@ -40,6 +40,18 @@ func zzParams(n int) (uint8, uint64) {
 func zzItems(tag string, n int) [][]byte {
 	var out [][]byte
 	for i := 0; i < n; i++ {
+		if vParam("itemlens", 0) == 1 {
+			// variant with empty / nil / one-byte items (length-boundary handling)
+			switch vCase("itemlen", 0, 2) {
+			case 0:
+				out = append(out, nil)
+			case 1:
+				out = append(out, []byte{})
+			default:
+				out = append(out, vBytes(zzName(tag, i), 1))
+			}
+			continue
+		}
 		out = append(out, vBytes(zzName(tag, i), 2))
 	}
 	return out
